@@ -20,11 +20,12 @@ STUB = ["scheduler (explicit schedule replayed from the fault-free run), clock, 
 ASSUMPTIONS = ["allocation failures are not injected (the statement is about file-system operations)",
                "a legal short count is not an error: the run must then end in the second outcome or abort"]
 
-E = {"EACCES": 13, "ENOSPC": 28, "EROFS": 30, "EMFILE": 24, "ENOENT": 2, "EIO": 5, "EINTR": 4, "EBUSY": 16}
+E = {"EACCES": 13, "ENOSPC": 28, "EROFS": 30, "EMFILE": 24, "ENOENT": 2, "EIO": 5, "EINTR": 4, "EBUSY": 16, "EXDEV": 18}
 ERRS = {"mkdir": ["EACCES", "ENOSPC", "EROFS"], "stat": ["EACCES"], "open": ["EACCES", "EMFILE", "ENOENT", "ENOSPC"],
         "fopen": ["EACCES", "EMFILE", "ENOENT", "ENOSPC"], "opendir": ["EACCES", "EMFILE", "ENOENT"],
         "write": ["ENOSPC", "EIO", "EINTR"], "fwrite": ["ENOSPC", "EIO", "EINTR"], "fclose": ["ENOSPC"], "close": ["EIO"],
-        "fread": ["EIO"], "readdir": ["EIO"], "remove": ["EACCES", "EBUSY"], "rmdir": ["EACCES", "EBUSY"], "closedir": []}
+        "fread": ["EIO"], "readdir": ["EIO"], "remove": ["EACCES", "EBUSY"], "rmdir": ["EACCES", "EBUSY"], "closedir": [],
+        "rename": ["EXDEV", "EACCES", "ENOSPC"], "unlink": ["EACCES", "EBUSY"], "fsync": ["EIO", "ENOSPC"], "fdatasync": ["EIO", "ENOSPC"]}
 
 gen = c09.gen
 
